@@ -184,6 +184,11 @@ func doPopulateStructFromJSON(
 				typeField.Name, key)
 		}
 
+		if !valField.CanAddr() {
+			return fmt.Errorf("cannot populate field %q: not addressable (an embedded interface must hold a pointer)",
+				typeField.Name)
+		}
+
 		fieldPtr := valField.Addr().Interface()
 		if err := json.Unmarshal(rawVal, fieldPtr); err != nil {
 			return fmt.Errorf("error unmarshaling field %q: %w",
